@@ -340,23 +340,25 @@ ADAPTER = part('adapter', 'plain')        # plain | routing | reactivex | rx
 ENTRY = part('entry', 'request_response')
 
 
-def c_app_failure(how: int, second_ok: bool) -> str:
+def c_app_failure(how: int, exc_kind: int) -> str:
     """
     Failing application code: handler entry point ENTRY (through adapter ADAPTER) fails in manner `how`
     (0 raises immediately, 1 raises after its first await, 2 returns a failing future / a publisher that fails
-    on subscribe, 3 publisher fails on request(n), 4 generator raises at the second element).  The failure is
+    on subscribe, 3 publisher fails on request(n), 4 generator raises at the second element), raising exception kind exc_kind (RuntimeError,
+    ConnectionResetError and TimeoutError - OSErrors that must not be mistaken for a lost transport -, KeyError).  The failure is
     confined to an ERROR on that stream (stream 0 for on_setup), the endpoint keeps serving: a request on another
     stream - sent before (still pending) and after - is answered correctly.
 
-    pre: 0 <= how <= 4
+    pre: 0 <= how <= 4 and 0 <= exc_kind <= 3
     post: _ in ALLOWED
     """
     from harness.c12_app import build_handler, trigger_frame
     how = conc(how, 0, 4)
+    exc_kind = conc(exc_kind, 0, 3)
     loop = new_loop()
     with loop:
         t = SimTransport(loop)
-        factory, recorder = build_handler(ADAPTER, ENTRY, how)
+        factory, recorder = build_handler(ADAPTER, ENTRY, how, exc_kind)
         ep = RSocketServer(t, handler_factory=factory)
         loop.run_ready()
         devs = []
@@ -382,7 +384,7 @@ def c_app_failure(how: int, second_ok: bool) -> str:
         ans = [f for _, f in t.sent[n0:] if f.stream_id == 9]
         if len(ans) != 1 or not isinstance(ans[0], PayloadFrame) or bytes(ans[0].data) != b'pong':
             devs.append('other-stream-not-served-after-application-failure')
-        stats.note(True, {'adapter': ADAPTER, 'entry': ENTRY, 'how': how})
+        stats.note(True, {'adapter': ADAPTER, 'entry': ENTRY, 'how': how, 'exc': exc_kind})
         t.eof()
         loop.run_ready()
         if loop.errors():
